@@ -1,8 +1,8 @@
 package checks
 
 import (
-	"github.com/DrmagicE/gmqtt/config"
 	"fmt"
+	"github.com/DrmagicE/gmqtt/config"
 	"runtime"
 	"sort"
 	"strings"
